@@ -11,10 +11,12 @@ let dec_result = function
   | Unmod -> "MODEL-UNMODELLED"
 let () = run_driver (function
   | ["prec"; b] -> string_of_z (rans_precision_bits (z b))
-  | ["es"; m; _auto; lvl; nc; syms] ->
+  | ["rbl"; nu; lvl] -> string_of_z (default_raw_bit_length (z nu) (if lvl = "u" then z "7" else z lvl))
+  | ["es"; m; _auto; lvl; nc; bl; syms] ->
       let syms = zlist syms in
       let lvl = if lvl = "u" then z "7" else z lvl in
-      (match enc_symbols (z m) lvl (z nc) syms with
+      (* bl: the raw bit length read off the implementation's bytes (policy, like the scheme); "-" when there is none *)
+      (match (if bl = "-" then enc_symbols (z m) lvl (z nc) syms else enc_symbols_with (z m) (z bl) (z nc) syms) with
        | None -> "fail"
        | Some bs -> hex_of_bytes bs ^ " amok=" ^ (if _auto = "0" || auto_method_ok syms (z m) then "1" else "0"))
   | ["ds"; ver; n; nc; h] -> dec_result (dec_symbols (z ver) (nat n) (nat nc) [] (bytes_of_hex h))
@@ -37,11 +39,11 @@ let () = run_driver (function
             let w = zlen (rans_block p st) in
             let used = (match rans_area_used p st with Some u -> string_of_z u | None -> "MODEL-NO-VARINT") in
             let ev = z e in
-            let (lo, hi) = ebits_window p probs fr in
+            let ((lo, hi), chk) = ebits_report p probs fr ev in
             let inside = int_of_z lo <= int_of_z ev && int_of_z ev <= int_of_z hi in
-            let verdict = if inside && ebits_check p probs fr ev then "ok"
+            let verdict = if inside && chk then "ok"
                           else Printf.sprintf "E-outside-[%s,%s]%s" (string_of_z lo) (string_of_z hi)
-                                 (if ebits_check p probs fr ev then "" else "-AND-TOO-SMALL-FOR-THE-THEOREM") in
+                                 (if chk then "" else "-AND-TOO-SMALL-FOR-THE-THEOREM") in
             Printf.sprintf "w=%s used=%s res=%s e=%s" (string_of_z w) used (string_of_z (rans_reserved ev)) verdict
           | None -> "MODEL-ENCODE-NONE")
        | CFalse -> "c=0"
